@@ -239,8 +239,8 @@ impl Check for C16 {
     }
     fn cases(&self, tier: Tier) -> u64 {
         match tier {
-            Tier::Quick => 60_000,
-            Tier::Thorough => 3_000_000,
+            Tier::Quick => 600_000,
+            Tier::Thorough => 25_000_000,
         }
     }
     fn exhaustive_note(&self, _tier: Tier) -> Option<String> {
